@@ -199,16 +199,16 @@ pub open spec fn dm_sound(ws: Seq<Option<Uuid>>, tasks: State, edges: Seq<(Uuid,
     forall|n: int| 0 <= n < edges.len() ==> dep_edge(ws, tasks, #[trigger] edges[n])
 }
 /// every edge arising at a working-set number below i (and, at number i, from one of the first j keys) is in the map
-pub open spec fn dm_complete(ws: Seq<Option<Uuid>>, tasks: State, edges: Seq<(Uuid, Uuid)>, i: int, keys: Seq<TaskKey>, j: int) -> bool {
+pub open spec fn dm_complete(ws: Seq<Option<Uuid>>, tasks: State, edges: Seq<(Uuid, Uuid)>, i: int, keys: Seq<&String>, j: int) -> bool {
     &&& forall|i2: int, k: Seq<char>, e: (Uuid, Uuid)| i2 < i && #[trigger] dep_edge_at(ws, tasks, i2, k, e) ==> edges.contains(e)
-    &&& forall|j2: int, e: (Uuid, Uuid)| 0 <= j2 < j && #[trigger] dep_edge_at(ws, tasks, i, keys[j2].s@, e) ==> edges.contains(e)
+    &&& forall|j2: int, e: (Uuid, Uuid)| 0 <= j2 < j && #[trigger] dep_edge_at(ws, tasks, i, keys[j2]@, e) ==> edges.contains(e)
 }
 pub open spec fn cache_ok(tasks: State, cache: Map<Uuid, bool>) -> bool {
     forall|d: Uuid| cache.dom().contains(d) ==> (#[trigger] cache[d]) == pending_task(tasks, d)
 }
-pub open spec fn no_keys() -> Seq<TaskKey> { Seq::<TaskKey>::empty() }
-pub proof fn lemma_dm_add(ws: Seq<Option<Uuid>>, tasks: State, edges: Seq<(Uuid, Uuid)>, i: int, keys: Seq<TaskKey>, j: int, e: (Uuid, Uuid))
-    requires dm_sound(ws, tasks, edges), dm_complete(ws, tasks, edges, i, keys, j), 0 <= j < keys.len(), dep_edge_at(ws, tasks, i, keys[j].s@, e),
+pub open spec fn no_keys() -> Seq<&'static String> { Seq::<&'static String>::empty() }
+pub proof fn lemma_dm_add(ws: Seq<Option<Uuid>>, tasks: State, edges: Seq<(Uuid, Uuid)>, i: int, keys: Seq<&String>, j: int, e: (Uuid, Uuid))
+    requires dm_sound(ws, tasks, edges), dm_complete(ws, tasks, edges, i, keys, j), 0 <= j < keys.len(), dep_edge_at(ws, tasks, i, keys[j]@, e),
     ensures dm_sound(ws, tasks, edges.push(e)), dm_complete(ws, tasks, edges.push(e), i, keys, j + 1),
 {
     let e2 = edges.push(e);
@@ -216,26 +216,26 @@ pub proof fn lemma_dm_add(ws: Seq<Option<Uuid>>, tasks: State, edges: Seq<(Uuid,
     assert forall|i2: int, k: Seq<char>, x: (Uuid, Uuid)| i2 < i && #[trigger] dep_edge_at(ws, tasks, i2, k, x) implies e2.contains(x) by {
         let n = choose|n: int| 0 <= n < edges.len() && edges[n] == x; assert(e2[n] == x);
     }
-    assert forall|j2: int, x: (Uuid, Uuid)| 0 <= j2 < j + 1 && #[trigger] dep_edge_at(ws, tasks, i, keys[j2].s@, x) implies e2.contains(x) by {
+    assert forall|j2: int, x: (Uuid, Uuid)| 0 <= j2 < j + 1 && #[trigger] dep_edge_at(ws, tasks, i, keys[j2]@, x) implies e2.contains(x) by {
         if j2 < j { let n = choose|n: int| 0 <= n < edges.len() && edges[n] == x; assert(e2[n] == x); }
         else { assert(x == e); assert(e2[edges.len() as int] == e); }
     }
 }
-pub proof fn lemma_dm_skip(ws: Seq<Option<Uuid>>, tasks: State, edges: Seq<(Uuid, Uuid)>, i: int, keys: Seq<TaskKey>, j: int)
+pub proof fn lemma_dm_skip(ws: Seq<Option<Uuid>>, tasks: State, edges: Seq<(Uuid, Uuid)>, i: int, keys: Seq<&String>, j: int)
     requires dm_complete(ws, tasks, edges, i, keys, j), 0 <= j < keys.len(),
-        dep_target(keys[j].s@) is None || !pending_task(tasks, dep_target(keys[j].s@)->Some_0),
+        dep_target(keys[j]@) is None || !pending_task(tasks, dep_target(keys[j]@)->Some_0),
     ensures dm_complete(ws, tasks, edges, i, keys, j + 1),
 {
 }
-pub proof fn lemma_dm_next(ws: Seq<Option<Uuid>>, tasks: State, edges: Seq<(Uuid, Uuid)>, i: int, keys: Seq<TaskKey>)
+pub proof fn lemma_dm_next(ws: Seq<Option<Uuid>>, tasks: State, edges: Seq<(Uuid, Uuid)>, i: int, keys: Seq<&String>)
     requires dm_complete(ws, tasks, edges, i, keys, keys.len() as int), 1 <= i < ws.len(), ws[i] is Some, tasks.dom().contains(ws[i]->Some_0),
         keys_listed(tasks[ws[i]->Some_0], keys),
     ensures dm_complete(ws, tasks, edges, i + 1, no_keys(), 0),
 {
     assert forall|i2: int, k: Seq<char>, x: (Uuid, Uuid)| i2 < i + 1 && #[trigger] dep_edge_at(ws, tasks, i2, k, x) implies edges.contains(x) by {
         if i2 == i {
-            let j2 = choose|j2: int| 0 <= j2 < keys.len() && (#[trigger] keys[j2]).s@ == k;
-            assert(dep_edge_at(ws, tasks, i, keys[j2].s@, x));
+            let j2 = choose|j2: int| 0 <= j2 < keys.len() && (#[trigger] keys[j2])@ == k;
+            assert(dep_edge_at(ws, tasks, i, keys[j2]@, x));
         }
     }
 }
